@@ -205,6 +205,7 @@ def run(F, res, tier):
     # ranges are computed on the text the analysis holds and converted with the store's line map: the two must be the same text
     _c13lm.last_text_wins(F, res, rule="A8")
     _c13lm.analysis_gets_every_recorded_text(F, res, rule="A9")
+    _c13lm.closing_hands_the_document_back_to_the_disk(F, res, rule="A10")   # ranges reported for a closed file refer to the file on disk
 
 
 def thorough(F, res):
